@@ -69,7 +69,7 @@ class ModuleInfo:
 
 class Env:
     """function activation: locals + enclosing closure + module"""
-    __slots__ = ('locals', 'closure', 'mod', 'fn', 'handling', 'loop_ord')
+    __slots__ = ('locals', 'closure', 'mod', 'fn', 'handling', 'loop_ord', 'final')
 
     def __init__(self, mod, closure=None, fn=None):
         self.locals = {}
@@ -640,7 +640,19 @@ class Engine:
             return None
         if env.fn.qual != c.func:
             return None
-        return c.invariants.get(ordn)
+        hdr = _loop_header(st)
+        # 1. an invariant written for exactly this header (robust against loops added/removed before it)
+        for o, inv in c.invariants.items():
+            if inv.get('header') and _norm(inv['header']) == _norm(hdr):
+                return inv
+        # 2. by ordinal, when the header it was written for no longer exists anywhere in the
+        #    function (the loop itself was edited): the obligations decide
+        inv = c.invariants.get(ordn)
+        if inv is not None:
+            all_hdrs = {_norm(_loop_header(n)) for n in ast.walk(env.fn.node) if isinstance(n, (ast.For, ast.While))}
+            if not inv.get('header') or _norm(inv['header']) not in all_hdrs:
+                return inv
+        return None
 
     # loop cutting -----------------------------------------------------------
     def cut_loop(self, st, env, inv, ordn, kind, iterable=None):
@@ -650,9 +662,6 @@ class Engine:
         fq = self.cur_contract.key
         hdr = ast.unparse(st.test) if kind == 'while' else (
             'for %s in %s' % (ast.unparse(st.target), ast.unparse(st.iter)))
-        if inv.get('header') and _norm(inv['header']) != _norm(hdr):
-            raise Unsupported('loop %d of %s: header changed (%r, contract written for %r)'
-                              % (ordn, fq, hdr, inv['header']))
         assigned = _assigned_names(st.body + ([] if kind == 'while' else [ast.Assign(targets=[st.target], value=None)]))
         ghost_vars = inv.get('ghost', {})
         # ghost variables initialised on entry
@@ -1627,6 +1636,12 @@ def VO_term(term, name):
     v.name = name
     v.proto = None
     return v
+
+
+def _loop_header(st):
+    if isinstance(st, ast.While):
+        return ast.unparse(st.test)
+    return 'for %s in %s' % (ast.unparse(st.target), ast.unparse(st.iter))
 
 
 def _tr(v):
